@@ -302,6 +302,7 @@ Print Assumptions provide_keys_op.
 (* ---------- A3 : the verdict of Decorate ---------- *)
 
 Definition dec_conflict (r : registry) (s : sid) (sg : fsig) : bool :=
+  negb (nodupb key_eqb (dec_keys sg)) ||
   existsb (fun k => existsb (fun d => Nat.eqb (sd_home d) s && decorates d k) (r_decs r)) (dec_keys sg).
 
 Lemma decorated_reg st r s k :
@@ -327,7 +328,8 @@ Proof.
     rewrite Hx in Ex. discriminate Ex.
 Qed.
 
-(* A.3: Decorate is rejected exactly when one of its keys is already decorated in that scope *)
+(* A.3: Decorate is rejected exactly when it returns the same key twice or one of its keys is
+   already decorated in that scope *)
 Theorem decorate_err_iff st r s p :
   RegRel st r ->
   fst (decorate st s p) = (if dec_conflict r s (di_sig p) then VErr err_dec_dup else VOk).
@@ -335,7 +337,7 @@ Proof.
   intros HR. unfold decorate, dec_conflict. cbv zeta.
   rewrite (existsb_ext_In _ (fun k => existsb (fun d => Nat.eqb (sd_home d) s && decorates d k) (r_decs r)))
     by (intros k _; apply decorated_reg; exact HR).
-  destruct (existsb _ (dec_keys (di_sig p))); reflexivity.
+  destruct (negb _ || existsb _ (dec_keys (di_sig p))); reflexivity.
 Qed.
 Print Assumptions decorate_err_iff.
 
